@@ -107,6 +107,9 @@ Calibration (parameter audit)
 * Python-int q on integer data is not generated (NumPy returns the integer input dtype there).
 * 2-d q only for quantile: np.nanquantile places the axes of an n-d q differently for int and tuple axes (moveaxis of one axis).
 * long floating products stay excluded in the new families (> 216 elements: integer data).
+* moment(order >= 3) with ddof == number of reduced elements: the numerator is a sum of signed powers that cancels to
+  rounding residue (exactly 0 in dask's pairwise combination, -1e-9 in the two-pass definition), and residue / 0 is NaN or +-inf
+  accordingly: only shape and dtype are compared (thorough tier, 2 cases in 151 000).
 * moment with dtype= narrower than the input: the reference forms x - mean in the input precision as np.var(dtype=) does
   (casting x first gave 0/0 = NaN for a single element with ddof=1 where NumPy's var and dask give residue/0 = inf).
 
@@ -169,9 +172,9 @@ _AUDIT_FLOORS = {"audit_scanblocks": 54, "audit_deeptree": 126, "audit_params": 
                  "scan_blelloch_blocks_7_33": 44, "scan_sequential_blocks_7_33": 30,
                  "tree_depth_ge3_runs": 355, "tree_depth_ge3_default_split_every_runs": 57,
                  "multi_axis_earlier_axis_deeper_runs": 190, "multi_axis_later_axis_deeper_runs": 220,
-                 "split_every_from_config_runs": 68, "split_every_ge4_runs": 105,
-                 "out_checked": 330, "method_form_cases": 68, "float_ddof_cases": 35, "moment_dtype_cases": 9,
-                 "quantile_weighted_cases": 18, "q_2d_cases": 7, "q_python_int_cases": 2,
+                 "split_every_from_config_runs": 62, "split_every_ge4_runs": 105,
+                 "out_checked": 330, "method_form_cases": 68, "float_ddof_cases": 35, "moment_dtype_cases": 14,
+                 "quantile_weighted_cases": 23, "q_2d_cases": 10, "q_python_int_cases": 4,
                  "xdtype_cases": 96, "nd4_cases": 58, "block_gt_255_elements_cases": 43,
                  "unknown_chunks_cases": 65, "sized_after_mask_cases": 66}
 FLOORS["quick"]["counters"].update(_AUDIT_FLOORS)
@@ -1628,7 +1631,9 @@ def _check_one(case, ctx, fam, op, x, e, rv, axis, kd, nred, scale, extreme):
         return None
     if fam == "topk":
         ctx.count("topk_checked")
-    if op == "moment" and case["order"] < 2 and (_nonfinite(x) or case.get("ddof", 0) != 0):
+    if op == "moment" and ((case["order"] < 2 and (_nonfinite(x) or case.get("ddof", 0) != 0))
+                           or (case["order"] >= 3 and nred - case.get("ddof", 0) <= 0)):
+        # (order >= 3 with ddof == n: a cancelling sum divided by zero, see Calibration)
         ctx.count("compared")
         if rv_a.shape != e.shape:
             return ("shape", "shape %s vs expected %s" % (rv_a.shape, e.shape))
@@ -1685,6 +1690,8 @@ def _pair(op, fam, case, v1, v2, nred, scale):
         return None  # which of several equal elements is returned is unspecified; each result was checked on its own
     if op == "moment" and case["order"] < 2:
         return compare_arrays(v1, v2, exact=True)
+    if op == "moment" and case["order"] >= 3 and nred - case.get("ddof", 0) <= 0:
+        return None if v1.shape == v2.shape else ("shape", "shape %s vs %s" % (v1.shape, v2.shape))
     tol = _tol_args(op, case, nred, scale, v2)
     if op in STDLIKE:
         return _cmp_std(v1, v2, scale, tol)
